@@ -104,12 +104,16 @@ func genC03Try(r *Rng, idx int, tier string) *Scenario {
 				cmds = append(cmds, pcmd{Data: []byte(l + "\r\n"), Note: l})
 			}
 			for k := r.Range(0, 3); k > 0; k-- {
-				l := r.Pick([]string{"PWD", "MKD s" + tag, "CWD s" + tag, "CDUP", "CWD /", "CWD /d" + tag, "SIZE x", "NOOP", "RMD s" + tag, "CWD .."})
+				l := r.Pick([]string{"PWD", "MKD s" + tag, "CWD s" + tag, "CDUP", "CWD /", "CWD /d" + tag, "SIZE x", "NOOP", "RMD s" + tag, "CWD ..", "PASV", "PASV"})
 				cmds = append(cmds, pcmd{Data: []byte(l + "\r\n"), Note: l})
 			}
 			cmds = append(cmds, pcmd{Data: []byte("PWD\r\n"), Note: "PWD"})
 		}
-		a := Actor{Kind: "tcp", Name: tag, Src: clientAddr(i), Dst: fmt.Sprintf("%s:%d", sensorIP, p.Port), Svc: pn}
+		dstIP := sensorIP
+		if r.Chance(0.3) {
+			dstIP = "192.0.2.2" // the sensor is reached on more than one of its addresses
+		}
+		a := Actor{Kind: "tcp", Name: tag, Src: clientAddr(i), Dst: fmt.Sprintf("%s:%d", dstIP, p.Port), Svc: pn}
 		if p.UDP {
 			a.Kind = "udp"
 		}
@@ -180,6 +184,7 @@ var c03Skip = map[string]bool{
 	"ftp.sessionid": true, "http.sessionid": true, "telnet.sessionid": true, "token": true,
 }
 
+var ftpPasvRe = regexp.MustCompile(`\((\d+,\d+,\d+,\d+),\d+,\d+\)`)
 var ftpRootRe = regexp.MustCompile(`@TMP@/ftp/[0-9a-f]+`)
 
 func c03Transcript(pn string, b []byte, tmp string) string {
@@ -187,6 +192,8 @@ func c03Transcript(pn string, b []byte, tmp string) string {
 		// error replies quote host paths: mask this run's temp dir and the random root directory name
 		s := strings.ReplaceAll(string(b), tmp, "@TMP@")
 		s = ftpRootRe.ReplaceAllString(s, "@ROOT@")
+		// the passive port is drawn at random; the address announced is the connection's own
+		s = ftpPasvRe.ReplaceAllString(s, "($1,P,P)")
 		return canonLines([]byte(s)) // FEAT lists its extensions in map order
 	}
 	return string(b)
